@@ -71,6 +71,23 @@ def run(rep, tier):
                     _c04.check_route(RuleView(rep, {"R-C04-route": "R-C11-kind"}), db, f, "%s | %s" % (db.label, f["full"][:150]))
                 except Inconclusive as ex:
                     rep.inconclusive("R-C11-kind", site(f), str(ex), "%s | %s" % (db.label, f["full"][:150]))
+    rep.rule("R-C11-null", "a null argument or result crosses as the ABI's null: on the invocation and callback paths pointers are translated only through the null-preserving entry points, never by a direct "
+             "call of the backend hook (shared analysis with C04's R-C04-only-via)")
+
+    class _InvokeOnly(RuleView):
+        # only the invocation / callback path is this property's business
+        def _mine(self, site_):
+            return site_.startswith("rlbox::rlbox_sandbox::") and any(w in site_ for w in ("invoke", "interceptor", "callback"))
+
+        def ok(self, rule, site_, *a, **k):
+            if self._mine(site_):
+                RuleView.ok(self, rule, site_, *a, **k)
+
+        def violation(self, rule, site_, *a, **k):
+            if self._mine(site_):
+                RuleView.violation(self, rule, site_, *a, **k)
+    for db in dbs:
+        _c04.check_only_via(_InvokeOnly(rep, {"R-C04-only-via": "R-C11-null"}), db, db.label)
     for db in dbs:
         rep.units.append(db.label)
         for r in db.records:
